@@ -587,6 +587,14 @@ Proof.
   intros S x. unfold st_set. destruct (x =? k)%N; auto.
 Qed.
 
+Lemma sim_apply_reply ev now st g resp lazy_ttl k :
+  sim ev now st g -> sim ev now (apply_reply resp lazy_ttl now k st) (apply_reply resp lazy_ttl now k g).
+Proof.
+  intro S. unfold apply_reply. destruct resp as [m|]; [|exact S].
+  destruct (save m lazy_ttl now) as [e|]; [|exact S].
+  destruct (store_ignored now (e_cache_exp e)); [exact S | apply sim_set, S].
+Qed.
+
 Lemma flat_map_incl {A B} (f g : A -> list B) l :
   (forall a, f a = g a \/ f a = []) -> incl (flat_map f l) (flat_map g l).
 Proof.
@@ -609,7 +617,7 @@ Proof.
   destruct c as [now st keys], g as [now_ gst keys_]. cbn [c_now c_st c_keys].
   intros <- <- S NE. pose proof tick_pos as TP.
   assert (S' : sim ev (now + tick) st gst) by (eapply sim_mono; [|exact S]; lia).
-  destruct o as [k age ml cl m | k resp | | s | | k]; cbn [step_gen c_now c_st c_keys andb].
+  destruct o as [k age ml cl m | k resp | | s | | k | k bg]; cbn [step_gen c_now c_st c_keys andb].
   - (* OLoad *)
     repeat split; try lia; [|left; reflexivity].
     destruct (store_ignored _ _); [exact S' | apply sim_set, S'].
@@ -641,9 +649,7 @@ Proof.
     destruct X as (st1 & _ & -> & S1 & OB & _).
     replace (match gst k with Some _ => gst | None => gst end) with gst by (destruct (gst k); reflexivity).
     repeat split; try lia; [|exact OB].
-    destruct resp as [m|]; [|exact S1].
-    destruct (save m lazy_ttl n) as [e|]; [|exact S1].
-    destruct (store_ignored n (e_cache_exp e)); [exact S1 | apply sim_set, S1].
+    apply sim_apply_reply, S1.
   - (* ODump *)
     repeat split; try lia; [exact S'|].
     set (n := now + tick) in *.
@@ -684,6 +690,39 @@ Proof.
     destruct ev; [|specialize (NE eq_refl); discriminate].
     repeat split; try lia; [|left; reflexivity].
     intro x. unfold st_del. destruct (x =? k)%N; [right; auto | apply S'].
+  - (* OExecR *)
+    set (n := now + tick) in *.
+    replace (match gst k with Some _ => gst | None => gst end) with gst by (destruct (gst k); reflexivity).
+    destruct (S' k) as [E|(E & D)].
+    + (* the code and the reference hold the same entry *)
+      rewrite <- E.
+      set (r := get_resp_with secs (lazy_enabled lazy_ttl) n n (st k)).
+      assert (S1 : sim ev n (match st k with
+                             | Some e => if get_hidden n (e_cache_exp e) then st_del k st else st
+                             | None => st end) gst).
+      { destruct (st k) as [e|] eqn:K; [|exact S'].
+        unfold get_hidden. destruct (e_cache_exp e <? n) eqn:H; [|exact S'].
+        intros x. unfold st_del. destruct (x =? k)%N eqn:Ex; [|apply S'].
+        assert (x = k) by lia; subst x. right. split; auto. right. exists e. split; [congruence|lia]. }
+      repeat split; try lia; [|left; reflexivity].
+      destruct (match r with Some (_, lz) => lz | None => false end); [apply sim_apply_reply, S1 | exact S1].
+    + (* the code has dropped it *)
+      rewrite E. cbn [get_resp_with].
+      destruct D as [D|(e & G & D)].
+      * (* evicted: the code misses and starts no refresh; the reference may *)
+        subst ev. repeat split; try lia.
+        -- destruct (match get_resp_with secs (lazy_enabled lazy_ttl) n n (gst k) with
+                     | Some (_, lz) => lz | None => false end); [|exact S'].
+           unfold apply_reply. destruct bg as [m|]; [|exact S'].
+           destruct (save m lazy_ttl n) as [e|]; [|exact S'].
+           destruct (store_ignored n (e_cache_exp e)); [exact S'|].
+           intro x. unfold st_set. destruct (x =? k)%N eqn:Ex; [|apply S'].
+           assert (x = k) by lia; subst x. right. auto.
+        -- right. split; auto.
+           destruct (get_resp_with secs (lazy_enabled lazy_ttl) n n (gst k)) as [[m lz]|]; auto.
+      * (* past its cache expiry: the reference hides it too *)
+        rewrite G. rewrite hidden_after_cache_expiry by lia.
+        repeat split; try lia; [exact S' | left; reflexivity].
 Qed.
 
 Lemma run_sim ev secs lazy_ttl ops : forall c g,
@@ -743,19 +782,55 @@ Lemma reference_store secs lazy_ttl c k m e :
   save m lazy_ttl (c_now c + tick) = Some e ->
   c_st (fst (step_gen false secs lazy_ttl c (OExec k (Some m)))) k = Some e.
 Proof.
-  intro S. cbn [step_gen fst c_st andb]. rewrite S.
+  intro S. cbn [step_gen fst c_st andb]. unfold apply_reply. rewrite S.
   assert (I : store_ignored (c_now c + tick) (e_cache_exp e) = false).
   { apply lifetimes in S as (_ & _ & _ & H & _). unfold store_ignored. lia. }
   rewrite I. unfold st_set. rewrite N.eqb_refl. reflexivity.
 Qed.
 
 Lemma reference_keeps secs lazy_ttl c o k :
-  (forall k' r, o <> OExec k' (Some r)) -> (forall a b d m, o <> OLoad k a b d m) ->
+  (forall k' r, o <> OExec k' (Some r)) -> (forall k' r, o <> OExecR k' (Some r)) ->
+  (forall a b d m, o <> OLoad k a b d m) ->
   c_st (fst (step_gen false secs lazy_ttl c o)) k = c_st c k.
 Proof.
-  intros H1 H2. destruct o as [k0 age ml cl m | k0 resp | | s | | k0]; cbn [step_gen fst c_st andb]; try reflexivity.
+  intros H1 H3 H2. destruct o as [k0 age ml cl m | k0 resp | | s | | k0 | k0 bg]; cbn [step_gen fst c_st andb]; try reflexivity.
   - destruct (store_ignored _ _); [reflexivity|]. unfold st_set.
     destruct (k =? k0)%N eqn:E; [|reflexivity]. assert (k = k0) by lia; subst. exfalso. eapply H2; reflexivity.
   - destruct resp as [r|]; [exfalso; eapply H1; reflexivity|].
     destruct (c_st c k0); reflexivity.
+  - destruct bg as [r|]; [exfalso; eapply H3; reflexivity|]. unfold apply_reply.
+    destruct (c_st c k0); destruct (match get_resp_with _ _ _ _ _ with Some (_, lz) => lz | None => false end); reflexivity.
+Qed.
+
+(** The reply of a refresh goes through the same decision as a foreground
+    reply: whatever must not be stored (save_decision = None: truncated, zero
+    TTL, other rcodes, ...) leaves no new entry — every entry in the map after
+    the step was there before. *)
+Lemma refresh_never_stores drop secs lazy_ttl c k m x e :
+  save_decision m lazy_ttl = None ->
+  c_st (fst (step_gen drop secs lazy_ttl c (OExecR k (Some m)))) x = Some e -> c_st c x = Some e.
+Proof.
+  intros D. cbn [step_gen fst c_st]. unfold apply_reply, save. rewrite D.
+  set (st1 := match c_st c k with
+              | Some e0 => if drop && get_hidden (c_now c + tick) (e_cache_exp e0) then st_del k (c_st c) else c_st c
+              | None => c_st c end).
+  assert (P : forall y v, st1 y = Some v -> c_st c y = Some v).
+  { intros y v. subst st1. destruct (c_st c k) as [e0|]; [|auto].
+    destruct (drop && get_hidden (c_now c + tick) (e_cache_exp e0)); [|auto].
+    unfold st_del. destruct (y =? k)%N; [discriminate|auto]. }
+  destruct (match get_resp_with _ _ _ _ _ with Some (_, lz) => lz | None => false end); apply P.
+Qed.
+
+(** and a reply that may be stored replaces the stale entry, on a stale hit only *)
+Lemma refresh_stores secs lazy_ttl c k m e0 e :
+  c_st c k = Some e0 -> lazy_enabled lazy_ttl = true ->
+  e_msg_exp e0 <= c_now c + tick <= e_cache_exp e0 ->
+  save m lazy_ttl (c_now c + tick) = Some e ->
+  c_st (fst (step_gen true secs lazy_ttl c (OExecR k (Some m)))) k = Some e.
+Proof.
+  intros K L T S. cbn [step_gen fst c_st andb]. rewrite K, L.
+  rewrite lazy_stale by lia. unfold apply_reply. rewrite S.
+  assert (I : store_ignored (c_now c + tick) (e_cache_exp e) = false).
+  { apply lifetimes in S as (_ & _ & _ & H & _). unfold store_ignored. lia. }
+  rewrite I. unfold st_set. rewrite N.eqb_refl. reflexivity.
 Qed.
